@@ -377,6 +377,12 @@ class Gen:
             uk = self.common()
             uk += self.maybe(0.5, lambda: self.own(lambda: (b"refine", b"gl", self.maybe(0.5, lambda: self.T(b"default", keeps_quote=True)) + self.descr(0.5) +
                                                             self.maybe(0.3, self.must) + self.exts(0.1))))
+            # every refine substatement is optional on its own, so that each of them is the first one printed in some module
+            uk += self.maybe(0.5, lambda: self.own(lambda: (b"refine", b"gll", self.iffeature(0.15) + self.maybe(0.2, self.must) +
+                                                            self.maybe(0.3, lambda: self.S(b"min-elements", self.rng.choice([b"1", b"0"]))) +
+                                                            self.maybe(0.5, lambda: self.S(b"max-elements", self.rng.choice([b"3", b"unbounded", b"unbounded"]))) +
+                                                            self.descr(0.3) + self.exts(0.05))))
+            uk += self.maybe(0.3, lambda: self.own(lambda: (b"refine", b"gc", self.maybe(0.5, lambda: self.T(b"presence", nonempty=True)) + self.descr(0.3))))
             uk += self.maybe(0.4, lambda: self.own(lambda: (b"augment", b"gc", self.descr(0.3) + [(b"leaf", self.nm(b"ua"), [(b"type", b"string", [])])])))
             return (b"uses", b"gr", uk)
         return self.own(mk)
@@ -435,6 +441,7 @@ class Gen:
                  (b"typedef", b"t3", [(b"type", b"enumeration", [self.own(lambda: (b"enum", self.spell(n, free=False), self.descr(0.3))) for n in rng.sample(ENUMS, 3)])])]
         kids.append(self.own(lambda: (b"grouping", b"gr", self.descr(0.4) + self.exts(0.1) + [
             self.own(lambda: (b"leaf", b"gl", [(b"type", b"string", [])] + self.descr(0.3))),
+            (b"leaf-list", b"gll", [(b"type", b"string", []), (b"max-elements", b"4", [])]),
             self.own(lambda: (b"container", b"gc", self.maybe(0.3, lambda: self.T(b"presence", nonempty=True)) + [(b"leaf", b"gcl", [(b"type", b"string", [])])]))])))
         if top:
             self.risk_used = True
